@@ -292,9 +292,102 @@ def check_C18(tier, seed):
     return finish(rep)
 
 
+FMT_PLANS = ["ok", "slow", "fail_after_read", "slow_read", "fail_no_read", "empty", "kill_no_read", "kill_after_read", "kill_mid_read",
+             "kill_mid_output", "term_after_read", "absent"]
+
+
+def describe_fmt(case, events, matched):
+    ev = events[matched] if matched < len(events) else {}
+    obs = [e for e in events if e.get("ev") == "obs"]
+    ret = obs[0]["ret"] if obs else {}
+    if ev.get("ev") == "obs":
+        if ret.get("kind") == "panic":
+            return "panicked (%s) under formatter plan %s" % (ret.get("msg", "")[:120], case.get("fmt_plan"))
+        if ret.get("kind") == "timeout":
+            return "did not return (hang) under formatter plan %s" % case.get("fmt_plan")
+        if ret.get("kind") == "ok" and obs[0].get("tokens_sha") != obs[0].get("ref_tokens_sha"):
+            return "returned a different program than with the formatter off (len %s vs %s) under plan %s" % (obs[0].get("text_len"), obs[0].get("ref_len"), case.get("fmt_plan"))
+    return "events %s are not a behaviour of Format.tla for plan %s (stuck at %s)" % ([e.get("name", e.get("ev")) for e in events[1:]], case.get("fmt_plan"), json.dumps(ev)[:200])
+
+
+def check_C19(tier, seed):
+    rep = Report("C19", tier, seed)
+    rng = random.Random(seed)
+    quick = tier == "quick"
+    r = run_mc("MC_Format.tla", "MC_Format.cfg", workers=4)
+    rep.add_mc("MC_Format(Tolerant, pipe capacity 2, sizes {1,3}, 6 plans)", r, "Safe, FormattedOnlyIfComplete, liveness Returns under weak fairness, deadlock check = hang")
+    rep.add_selftest("MC_Format_mut(Tolerant=FALSE: the original unwrap / accept-any-exit-0 code)", run_mc("MC_Format.tla", "MC_Format_mut.cfg", workers=2, expect_violation=True))
+    rep.add_selftest("MC_Format_stream(streaming child, outside the listed faults: deadlock found)", run_mc("MC_Format.tla", "MC_Format_stream.cfg", workers=2, expect_violation=True))
+    real = shutil.which("rustfmt")
+    if not real:
+        raise ToolError("no rustfmt on PATH")
+    empty = os.path.join(WORK, "emptydir")
+    os.makedirs(empty, exist_ok=True)
+    env = {"VERIF_STUB_DIR": os.path.join(HARNESS, "stubs"), "VERIF_EMPTY_DIR": empty, "VERIF_REAL_RUSTFMT": real}
+    os.environ.update(env)
+    small = [F.role_shader(rng)[0] for _ in range(3 if quick else 12)]
+    large = [F.wide(120, 150), F.wide(300, 20)] if quick else [F.wide(120, 150), F.wide(300, 20), F.wide(60, 400), F.wide(500, 4)]
+    cases = []
+    k = 0
+    for cls, shaders in (("small", small), ("large", large)):
+        for si, S in enumerate(shaders):
+            for plan in FMT_PLANS:
+                for late in (False, True):
+                    if plan in ("ok", "slow", "absent") and late:
+                        continue
+                    cases.append({"id": "fmt-%s%d-%s%s" % (cls, si, plan, "-late" if late else ""), "family": "fmt-" + plan, "S": S,
+                                  "opts": F.opts(rustfmt=True, enc=True, mv="glam"), "fmt_plan": plan, "fmt_late": late, "size_class": cls})
+                    k += 1
+    # formatter-on = formatter-off, token for token, on many more shaders (real rustfmt through the stub)
+    for i in range(40 if quick else 600):
+        S = F.role_shader(rng)[0] if i % 2 else F.rand_shader(rng, names=True)
+        cases.append({"id": "fmt-eq-%04d" % i, "family": "fmt-equivalence", "S": S, "opts": F.opts(rustfmt=True, enc=True, bmv=(i % 3 == 0), mv=["rust", "glam", "nalgebra"][i % 3]),
+                      "fmt_plan": "ok", "size_class": "small"})
+    by_id = {c["id"]: c for c in cases}
+    trace = run_vdriver(cases, "C19_fmt", keep=["mods"], case_timeout=30)
+    # sanity: size classes are what they claim; hooks present
+    evs = [json.loads(l) for l in open(trace)]
+    seen_fmt_hook = False
+    for e in evs:
+        if e.get("ev") == "phase" and str(e.get("name", "")).startswith("fmt."):
+            seen_fmt_hook = True
+        if e.get("ev") == "obs" and "ref_len" in e:
+            c = by_id.get(e["id"], {})
+            if (c.get("size_class") == "large") != (e["ref_len"] > 65536):
+                raise ToolError("size class of %s is wrong (program is %d bytes)" % (e["id"], e["ref_len"]))
+    if not seen_fmt_hook:
+        raise ToolError("no fmt.* hook events recorded: hooks missing")
+    # drop cases outside the domain (generator panics / errors with the formatter off)
+    keep_ids = set(e["id"] for e in evs if e.get("ev") == "obs" and ("ref_tokens_sha" in e or e.get("ret", {}).get("kind") == "timeout"))
+    ft = trace + ".dom"
+    with open(ft, "w") as f:
+        for e in evs:
+            if e.get("id", None) in keep_ids or (e.get("ev") not in ("case", "obs") and cur_ok):
+                f.write(json.dumps(e) + "\n")
+            if e.get("ev") == "case":
+                cur_ok = e["id"] in keep_ids
+    n_calls, rejected = validate_by_reachability(ft, "Trace_Format.tla", "Trace_Format.cfg", describe_fmt)
+    rep.evaluations += len(cases)
+    rep.traces += n_calls
+    rep.families["formatter"] = n_calls
+    for c in cases:
+        rep.distinct.add(src_key(c) + str(c.get("fmt_plan")) + str(c.get("fmt_late")))
+    findings = load_findings()
+    for rj in rejected:
+        v = {"id": rj["case"]["id"], "family": rj["case"].get("family", ""), "msg": rj["why"], "prop": "C19"}
+        f = match_finding("C19", v, by_id.get(v["id"]), findings)
+        if f:
+            rep.known.append((f, v))
+        else:
+            rep.violations.append((v, by_id.get(v["id"])))
+    rep.sample({"case_id": cases[0]["id"], "plan": cases[0]["fmt_plan"], "events": [e for e in evs if e.get("id") == cases[0]["id"] or e.get("ev") in ("phase", "fmt.wait")][:8]})
+    rep.sample({"plans": FMT_PLANS, "timing_variants": ["parent writes at once", "parent delayed 150 ms at fmt.spawned (child already gone)"], "size_classes": ["small", "large (> 64 KiB program text)"]})
+    return finish(rep)
+
+
 # Does the specification of the stage walk memoise callees per entry point? (the code does since the C20 fix)
 MEMO = True
 # Does the type closure return early on a type it has already inserted? (the code does since the C20 fix)
 EARLY = True
 
-CHECKS = {"C11": check_C11, "C03": check_C03, "C08": check_C08, "C20": check_C20, "C13": check_C13, "C09": check_C09, "C17": check_C17, "C18": check_C18}
+CHECKS = {"C11": check_C11, "C03": check_C03, "C08": check_C08, "C20": check_C20, "C13": check_C13, "C09": check_C09, "C17": check_C17, "C18": check_C18, "C19": check_C19}
